@@ -732,6 +732,7 @@ def check_result(ctx: Ctx, tag: str, tree, run_dir, save, expected_keys, snaps, 
     entries, problems = reported_entries(tree, run_dir)
     execs = execs or {}
     held_cache: list = []
+    attributed_exec: dict = {}
     for p in problems:
         ctx.viol(f"C19:{tag}:output-node-unreadable", p)
     req = requested(save)
@@ -781,13 +782,23 @@ def check_result(ctx: Ctx, tag: str, tree, run_dir, save, expected_keys, snaps, 
         if len(versions) > 1:
             # several executions of this run held different buckets: which one is in the result?
             ctx.count("entries_of_runs_executed_more_than_once")
-            if not held_cache:
-                held_cache.append(result_run_data(tree, base, list(expected_keys)[0] if len(expected_keys) == 1 else None))
-            held = held_cache[0].get((key, en["bucket"]), [])
-            attributed = [v for v in versions if any(_same(v, h) for h in held)]
-            if len(attributed) == 1:
+            if key not in attributed_exec:
+                if not held_cache:
+                    held_cache.append(result_run_data(tree, base, list(expected_keys)[0] if len(expected_keys) == 1 else None))
+                # the execution is a property of the run: every bucket the result holds for it may identify it
+                cand = None
+                for b in BUCKETS:
+                    held = held_cache[0].get((key, b), [])
+                    m = {i for i, sn in enumerate(execs[key]) if any(_same(sn[b], h) for h in held)}
+                    if m:
+                        cand = m if cand is None else (cand & m)
+                attributed_exec[key] = next(iter(cand)) if cand is not None and len(cand) == 1 else None
+                if attributed_exec[key] is None:
+                    ctx.observe("attribution_unresolved_in", f"{tag}:{0 if cand is None else len(cand)} of "
+                                                             f"{len(execs[key])} executions match the buckets the result holds")
+            if attributed_exec[key] is not None:
                 ctx.count("entries_attributed_by_result_data")
-                want = attributed[0]
+                want = execs[key][attributed_exec[key]][en["bucket"]]
             else:  # unresolved: any execution of the run is accepted
                 ctx.count("entries_attribution_unresolved")
                 want = next((v for v in versions if compare_file(en["path"], en["fmt"], v)[0] in ("exact", "lossy")), want)
